@@ -3,5 +3,6 @@ CONSTANTS
   Vary = {"fn", "sh", "shk"}
   Fns = {"Println", "Printf", "Errorf"}
   Shs = {"-", "echo", "printf", "errorf", "println", "fmt"}
+  ScopeAware = FALSE
 INVARIANTS TypeOK Confluent ImportSound Export
 PROPERTIES Stable Terminates
